@@ -658,6 +658,203 @@ def gen_prog_G(rng):
     return {"flows": [sig, main], "family": "G", "kind": "wf", "ordered": True}
 
 
+# values with many Python-equalities between them, falsy ones included
+ACT_POOL = [0, False, "", [], {}, None, 0.0, 1, True, 1.0, 2, "a", [1], {"k": 1}, [0], 2.5]
+
+
+def gen_act_sig(rng, name="watch"):
+    n = rng.randint(1, 3)
+    names = list(rng.choice(NAME_POOLS))[:n]
+    params = []
+    for nm in names:
+        r = rng.random()
+        if r < 0.7:
+            params.append([nm, ["lit", rng.choice(ACT_POOL[7:] if rng.random() < 0.7 else ACT_POOL)]])
+        else:
+            params.append([nm, None])
+    return {"name": name, "params": params, "rets": [], "body": []}
+
+
+def gen_act_args(rng, sig, vec=None):
+    """a well-formed call (positional prefix, named rest, some omitted) - if [vec] is given, one that
+    binds (Python-)equal values through a possibly different mix of forms"""
+    names = [p[0] for p in sig["params"]]
+    n = len(names)
+    k = rng.randint(0, n)
+    args = []
+    for i in range(n):
+        nm, dflt = sig["params"][i]
+        if vec is not None:
+            val = vec[i]
+            if rng.random() < 0.3:
+                eqs = [x for x in ACT_POOL if _pyeq(x, val)]
+                val = rng.choice(eqs) if eqs else val
+        else:
+            val = rng.choice(ACT_POOL)
+        if i < k:
+            args.append(["pos", ["lit", val]])
+        else:
+            can_omit = (vec is None) or (dflt is not None and _pyeq(pyeval(dflt, {}), val)) or (dflt is None and val is None)
+            if can_omit and rng.random() < 0.5:
+                continue
+            args.append(["named", nm, ["lit", val]])
+    named = [a for a in args if a[0] == "named"]
+    rng.shuffle(named)
+    return [a for a in args if a[0] == "pos"] + named
+
+
+def _pyeq(a, b):
+    try:
+        return bool(a == b)
+    except Exception:
+        return False
+
+
+def bound_vector(sig, args, ctx=None):
+    """the binding rule of the property text, independently: positional, else named, else default
+    (empty context), else None"""
+    ctx = ctx or {}
+    pos = [a[1] for a in args if a[0] == "pos"]
+    named = {a[1]: a[2] for a in args if a[0] == "named"}
+    out = []
+    for i, (nm, dflt) in enumerate(sig["params"]):
+        if i < len(pos):
+            out.append(pyeval(pos[i], ctx))
+        elif nm in named:
+            out.append(pyeval(named[nm], ctx))
+        elif dflt is not None:
+            out.append(pyeval(dflt, {}))
+        else:
+            out.append(None)
+    return out
+
+
+def args_to_ev(args, activated=True):
+    items = [["flow_id", "f"], ["flow_instance_uid", "(f)new"], ["source_flow_instance_uid", "@MAIN"],
+             ["source_head_uid", "(head)"], ["flow_hierarchy_position", "0.1"]]
+    if activated:
+        items.append(["activated", True])
+    i = 0
+    for a in args:
+        if a[0] == "pos":
+            items.append([f"${i}", a[1][1]])
+            i += 1
+        else:
+            items.append([a[1], a[2][1]])
+    return {"items": items, "shared": None}
+
+
+def gen_actref_case(rng):
+    """function level: instances of one flow (some activated reference instances) + a new StartFlow"""
+    sig = gen_act_sig(rng, "f")
+    insts = []
+    for _ in range(rng.randint(1, 3)):
+        a = gen_act_args(rng, sig)
+        kind = rng.choice(["ref", "ref", "ref", "not-activated", "child-of-same-flow", "parent-gone"])
+        insts.append({"args": a, "kind": kind})
+    evs = []
+    for _ in range(6):
+        if rng.random() < 0.6:
+            base = rng.choice(insts)
+            vec = bound_vector(sig, base["args"])
+            if rng.random() < 0.4:      # change one value, preferably into a falsy one
+                j = rng.randrange(len(vec))
+                vec = list(vec)
+                vec[j] = rng.choice(ACT_POOL[:7] if rng.random() < 0.6 else ACT_POOL)
+            evs.append(gen_act_args(rng, sig, vec))
+        else:
+            evs.append(gen_act_args(rng, sig))
+    return {"sig": sig, "insts": insts, "calls": evs}
+
+
+def oracle_actref(sig, insts, call, res):
+    """an activation may only be identified with an instance whose bound parameter values are equal"""
+    if res.get("index") is None:
+        return None
+    j = res["index"]
+    if j >= len(insts):
+        return ("activation-reference-out-of-range", f"returned instance {j}")
+    v_old = bound_vector(sig, insts[j]["args"])
+    v_new = bound_vector(sig, call)
+    for (nm, _d), a, b in zip(sig["params"], v_old, v_new):
+        if not _pyeq(a, b):
+            return ("activation-identified-despite-different-bound-values",
+                    f"`activate` binding {nm}={b!r} is taken for the activated instance with {nm}={a!r}: no instance receives {b!r}")
+    return None
+
+
+def gen_prog_V(rng):
+    """family V: main activates one flow repeatedly with equal / different parameter vectors (falsy
+    and truthy values; named, positional and default mixes; an occasional plain `start`)."""
+    sig = gen_act_sig(rng, "watch")
+    names = [p[0] for p in sig["params"]]
+    sig["body"] = [echo_of(1, names), ["wait"]]
+    mbody = []
+    calls = []
+    vecs = []
+    for j in range(rng.randint(2, 5)):
+        r = rng.random()
+        if vecs and r < 0.35:
+            args = gen_act_args(rng, sig, rng.choice(vecs))
+        elif vecs and r < 0.6:
+            vec = list(rng.choice(vecs))
+            vec[rng.randrange(len(vec))] = rng.choice(ACT_POOL[:7])
+            args = gen_act_args(rng, sig, vec)
+        else:
+            args = gen_act_args(rng, sig)
+        form = "start" if rng.random() < 0.12 else "activate"
+        syntax, args = pick_syntax(rng, args)
+        if syntax == "simple":
+            # keep the positional prefix in front (a shuffled simple call renumbers nothing, but
+            # the oracle below reads positions in order of appearance anyway)
+            pass
+        vecs.append(bound_vector(sig, args))
+        calls.append((form, args))
+        mbody.append(["call", form, syntax, "watch", args, None])
+        mbody.append(["echo", 100 + j, []])
+    mbody += [["echo", 99, []], ["wait"]]
+    main = {"name": "main", "params": [], "rets": [], "body": mbody}
+    return {"flows": [sig, main], "family": "V", "ordered": False}
+
+
+def oracle_prog_V(prog, res):
+    """every activation (reached by main) with a NEW parameter vector starts an instance that
+    echoes exactly those values; a plain `start` always does"""
+    if prog.get("family") != "V" or res.get("echoes") is None:
+        return None
+    sig, main = prog["flows"]
+    calls = [st for st in main["body"] if st[0] == "call"]
+    tags = {t for t, _ in res["echoes"]}
+    inst_echoes = [[v for _k, v in items] for t, items in res["echoes"] if t == 1]
+    activated = []     # vectors of the activations reached so far
+    required = []      # (vector, how many instances must have echoed it)
+    for j, st in enumerate(calls):
+        if j > 0 and (100 + j - 1) not in tags:
+            break       # main never reached this statement
+        vec = bound_vector(sig, st[4])
+        need = False
+        if st[1] == "start":
+            need = True
+        else:
+            if not any(all(_pyeq(a, b) for a, b in zip(vec, old)) for old in activated):
+                need = True
+            activated.append(vec)
+        if need:
+            for r in required:
+                if all(_pyeq(a, b) for a, b in zip(vec, r[0])):
+                    r[1] += 1
+                    break
+            else:
+                required.append([vec, 1])
+    for vec, cnt in required:
+        got = sum(1 for e in inst_echoes if len(e) == len(vec) and all(_pyeq(a, b) for a, b in zip(e, vec)))
+        if got < cnt:
+            names = [p[0] for p in sig["params"]]
+            return ("activate-new-parameter-values-start-no-instance",
+                    f"`activate watch` binding {dict(zip(names, vec))!r}: {got} instance(s) echoed these values, {cnt} required (instances echoed: {inst_echoes!r})")
+    return None
+
+
 def gen_prog_R(rng):
     """family R: a recursive flow; every level assigns the same-named local before the inner call
     and echoes it afterwards.  The direct oracle applies (privacy between instances of one flow)."""
@@ -778,6 +975,50 @@ def _impl_bind_job(job, sm, v2util, CRE):
     return {"results": results}
 
 
+def _impl_actref_job(job, sm, v2util, CRE, fl):
+    sig = job["sig"]
+    src = src_prog({"flows": [dict(sig, name="f", body=[["echo", 1, []]]),
+                              {"name": "main", "params": [], "rets": [], "body": [["wait"]]}]})
+    try:
+        state = v2util.init_state(src)
+    except Exception as e:
+        return {"error": "parse: " + repr(e)[:300], "src": src}
+    cfg = state.flow_configs["f"]
+    main_uid = state.main_flow_state.uid
+
+    def to_dict(ev):
+        return {k: (main_uid if v == "@MAIN" else v) for k, v in ev["items"]}
+
+    objs = []
+    for i, inst in enumerate(job["insts"]):
+        d = to_dict(args_to_ev(inst["args"]))
+        fs = sm.create_flow_instance(cfg, f"(f)inst{i}", f"0.{i}", d)
+        sm.add_new_flow_instance(state, fs)
+        objs.append(fs)
+    for i, (inst, fs) in enumerate(zip(job["insts"], objs)):
+        kind = inst["kind"]
+        fs.activated = 0 if kind == "not-activated" else 1
+        if kind == "child-of-same-flow":
+            fs.parent_uid = objs[(i + 1) % len(objs)].uid if len(objs) > 1 else fs.uid
+        elif kind == "parent-gone":
+            fs.parent_uid = "(gone)"
+        else:
+            fs.parent_uid = main_uid
+    order = [f.uid for f in state.flow_id_states["f"]]
+    inst_args = [[[k, v] for k, v in f.arguments.items()] for f in objs]
+    results = []
+    for call in job["calls"]:
+        d = to_dict(args_to_ev(call))
+        try:
+            ev = fl.InternalEvent(name="StartFlow", arguments=d, matching_scores=[])
+            r = sm._get_reference_activated_flow_instance(state, ev)
+            results.append({"index": None if r is None else order.index(r.uid)})
+        except Exception as e:
+            results.append({"exc": type(e).__name__ + ": " + str(e)[:200]})
+    return {"results": results, "inst_args": inst_args,
+            "order_ok": order == [f.uid for f in objs]}
+
+
 def _plain(v):
     if v is None or isinstance(v, (bool, int, float, str)):
         return True
@@ -851,6 +1092,9 @@ def child_main(inp, outp):
         try:
             if job["kind"] == "bind":
                 res.append(_impl_bind_job(job, sm, v2util, CRE))
+            elif job["kind"] == "actref":
+                from nemoguardrails.colang.v2_x.runtime import flows as fl
+                res.append(_impl_actref_job(job, sm, v2util, CRE, fl))
             else:
                 res.append(_impl_prog_job(job, sm, v2util, CRE))
         except Exception as e:
@@ -1111,10 +1355,13 @@ def run(tier, seed, replay=None):
     n_O4 = 30 if tier == "quick" else 200
     n_R = 80 if tier == "quick" else 800
     n_G = 40 if tier == "quick" else 400
+    n_V = 250 if tier == "quick" else 2500
+    n_actref = 120 if tier == "quick" else 1200
 
     # ---- cases: corpus first, then replay, then generated
     bind_cases = []   # (sig, ev)
     prog_cases = []   # prog
+    actref_cases = []  # {"sig", "insts", "calls"}
     corpus_n = 0
     corpus_dir = os.path.join(C.VERIF, "corpus", PID)
     stored = []
@@ -1126,12 +1373,16 @@ def run(tier, seed, replay=None):
     if replay:
         d = json.load(open(replay))
         stored.append(d.get("replay", d))
-        n_sig = n_A = n_B = n_O4 = n_R = n_G = 0
+        n_sig = n_A = n_B = n_O4 = n_R = n_G = n_V = n_actref = 0
     for d in stored:
         if d.get("kind") == "bind":
             bind_cases.append((d["sig"], d["ev"]))
         elif d.get("kind") == "prog":
             prog_cases.append(d["prog"])
+        elif d.get("kind") == "actref":
+            actref_cases.append(d["case"])
+    for _ in range(n_actref):
+        actref_cases.append(gen_actref_case(rng))
     for _ in range(n_sig):
         sig = gen_sig(rng, "f")
         for _ in range(ev_per_sig):
@@ -1146,6 +1397,8 @@ def run(tier, seed, replay=None):
         prog_cases.append(gen_prog_R(rng))
     for _ in range(n_G):
         prog_cases.append(gen_prog_G(rng))
+    for _ in range(n_V):
+        prog_cases.append(gen_prog_V(rng))
 
     # ---- run the implementation
     jobs = []
@@ -1158,6 +1411,7 @@ def run(tier, seed, replay=None):
     bind_jobs = list(groups.values())
     jobs += [{"kind": "bind", "sig": j["sig"], "evs": j["evs"]} for j in bind_jobs]
     jobs += [{"kind": "prog", "prog": p} for p in prog_cases]
+    jobs += [{"kind": "actref", **c} for c in actref_cases]
     impl_res, impl_errs = run_impl(jobs, timeout=600 if tier == "quick" else 3000)
     for e in impl_errs:
         out.add_broken("impl-run:C08", e)
@@ -1170,7 +1424,8 @@ def run(tier, seed, replay=None):
             continue
         for i, rr in zip(j["idx"], r["results"]):
             bind_res[i] = rr
-    prog_res = impl_res[len(bind_jobs):]
+    prog_res = impl_res[len(bind_jobs): len(bind_jobs) + len(prog_cases)]
+    actref_res = impl_res[len(bind_jobs) + len(prog_cases):]
 
     seen = set()
     n_nontrivial = 0
@@ -1178,6 +1433,7 @@ def run(tier, seed, replay=None):
            "O2_double_binding_positional_wins": 0, "O3_unknown_named_argument_ignored": 0,
            "O4_await_without_return_fails_caller": 0,
            "O5_wellformed_await_hangs_after_callee_changed_global_argument": 0,
+           "O7_reactivation_through_other_call_form_leaves_caller_waiting": 0,
            "e2e_caller_left_waiting_forever": 0, "e2e_run_to_completion_raised": 0, "e2e_caller_failed": 0}
     obs_examples = {}
     dist = {"bind_results": {}, "bind_shapes": {}, "prog_outcomes": {}, "prog_families": {}, "call_forms": {},
@@ -1241,6 +1497,55 @@ def run(tier, seed, replay=None):
                 out.add_broken("correspondence:C08-bind",
                                f"{len(bad)} disagreements; smallest: {src_sig(sig)} event_arguments={ev} impl={res} model={model[-1500:]}")
 
+    # ---- function level: _get_reference_activated_flow_instance
+    aterms, akept = [], []
+    act_hist = {"identified": 0, "new-instance": 0}
+    for case, r in zip(actref_cases, actref_res):
+        if r is None:
+            continue
+        if "error" in r:
+            out.add_broken("impl-run:C08-actref", r["error"] + "\n" + r.get("src", ""))
+            continue
+        if not r.get("order_ok"):
+            out.add_broken("impl-run:C08-actref", "flow_id_states order differs from creation order")
+            continue
+        sig = case["sig"]
+        insts_t = C.coq_list([f"({C.coq_bool(i['kind'] == 'ref')}, {cctx(a)})" for i, a in zip(case["insts"], r["inst_args"])])
+        for call, rr in zip(case["calls"], r["results"]):
+            payload = {"kind": "actref", "case": {"sig": sig, "insts": case["insts"], "calls": [call]}}
+            if "exc" in rr:
+                out.findings.append(C.Finding("actref-unexpected-exception", rr["exc"], payload))
+                continue
+            act_hist["identified" if rr["index"] is not None else "new-instance"] += 1
+            v = oracle_actref(sig, case["insts"], call, rr)
+            if v:
+                out.findings.append(C.Finding(v[0], v[1], dict(payload, impl=rr, signature=src_sig(sig))))
+            ev = args_to_ev(call)
+            try:
+                t = f"({cparams(sig['params'])}, ({insts_t} : list (bool * ctx)), {cctx(ev['items'])}, " + \
+                    ("(None : option nat)" if rr["index"] is None else f"(Some {rr['index']}%nat)") + ")"
+            except Unsupported:
+                continue
+            h = C.canon_hash(["actref", sig, case["insts"], call])
+            if h not in seen:
+                seen.add(h)
+                n_nontrivial += 1
+            aterms.append(t)
+            akept.append((case, call, rr))
+    n_act_dis = 0
+    if okm and aterms:
+        bools, err = C.run_cases(PID + "_actref", PREAMBLE, aterms, "check_actref")
+        if err:
+            out.add_broken("correspondence:C08-actref(coqc)", err)
+        else:
+            bad = [c for ok, c in zip(bools, akept) if not ok]
+            n_act_dis = len(bad)
+            if bad:
+                case, call, rr = min(bad, key=lambda c: len(json.dumps(c[0]["insts"])) + len(json.dumps(c[1])))
+                out.add_broken("correspondence:C08-actref",
+                               f"{len(bad)} disagreements; smallest: {src_sig(case['sig'])} instances={case['insts']} new call={call} impl={rr}")
+    dist["activation_reference_lookups"] = act_hist
+
     # ---- end to end
     pterms, pkept = [], []
     n_calls = 0
@@ -1271,13 +1576,16 @@ def run(tier, seed, replay=None):
             if prog.get("family") == "O4":
                 obs["O4_await_without_return_fails_caller"] += 1
                 obs_examples.setdefault("O4_await_without_return_fails_caller", {"program": res["src"], "echoes": res["echoes"]})
+        if prog.get("family") == "V" and oc == 3:
+            obs["O7_reactivation_through_other_call_form_leaves_caller_waiting"] += 1
+            obs_examples.setdefault("O7_reactivation_through_other_call_form_leaves_caller_waiting", {"program": res["src"], "echoes": res["echoes"]})
         if prog.get("family") == "G" and oc == 3:
             obs["O5_wellformed_await_hangs_after_callee_changed_global_argument"] += 1
             obs_examples.setdefault("O5_wellformed_await_hangs_after_callee_changed_global_argument", {"program": res["src"], "echoes": res["echoes"]})
         if prog.get("family") == "A" and prog.get("kind") == "unknown" and oc == 3:
             obs["O3_unknown_named_argument_ignored"] += 1
             obs_examples.setdefault("O3_unknown_named_argument_ignored", {"program": res["src"], "echoes": res["echoes"]})
-        v = oracle_prog_A(prog, res) or oracle_prog_R(prog, res)
+        v = oracle_prog_A(prog, res) or oracle_prog_R(prog, res) or oracle_prog_V(prog, res)
         if v:
             out.findings.append(C.Finding(v[0], v[1], {"kind": "prog", "prog": prog, "source": res["src"],
                                                        "impl": {k: res.get(k) for k in ("outcome", "echoes", "finals", "globals", "msg")}}))
@@ -1307,7 +1615,8 @@ def run(tier, seed, replay=None):
                                f"{len(bad)} disagreements; smallest program:\n{res['src']}\nimpl: outcome={res['outcome']} echoes={res['echoes']} finals={res.get('finals')} globals={res.get('globals')}\nmodel: {model[-2500:]}")
 
     out.coverage.update({
-        "evaluations": len(terms) + len(pterms),
+        "evaluations": len(terms) + len(pterms) + len(aterms),
+        "activation_reference_lookups_function_level": len(aterms),
         "calls_bound_function_level": len(terms),
         "calls_end_to_end": n_calls,
         "programs_end_to_end": len(pterms),
@@ -1316,11 +1625,11 @@ def run(tier, seed, replay=None):
         "samples": [{"signature": src_sig(s), "event_arguments": e["items"], "impl": r} for s, e, r in kept[:2]]
                    + [{"program": r["src"], "outcome": r["outcome"], "echoes": r["echoes"]} for _p, r in pkept[:2]],
         "input_distribution": dist | {"corpus_cases": corpus_n},
-        "traces_validated_against_impl": len(terms) + len(pterms),
-        "correspondence_disagreements": n_bind_dis + n_prog_dis,
+        "traces_validated_against_impl": len(terms) + len(pterms) + len(aterms),
+        "correspondence_disagreements": n_bind_dis + n_prog_dis + n_act_dis,
         "oracle_violations": len(out.findings),
         "observations_outside_the_premise": {"counts": obs, "examples": obs_examples,
-            "text": "O1: surplus positional arguments are rejected only when the flow has no parameter or more than 2n are given; otherwise the callee runs with the first n, its context gains keys `$j`, and the caller waits forever (its FlowStarted match mentions `$n`). O2: a parameter given positionally and by name gets the positional value; the caller waits forever when the two values differ. O3: a named argument that is no parameter is ignored by the callee and leaves the caller waiting forever. O4: `$x = await f` where f ends without executing `return` fails the caller (ColangValueError on `.arguments.return_value`). O1-O4 are not claimed or counted as violations: the property text presupposes a corresponding positional or named argument and a value given to `return`. O5 (KNOWN FINDING, well-formed call): the caller's FlowStarted match re-evaluates the call arguments when the event arrives, so a callee that changes a global used in an argument before it is started leaves the caller of `$x = await f(..)` waiting forever; reported through the oracle with signature " + O5_SIG + "; candidate repair fixes/C08-flowstarted-match.patch (not applied: it changes match specificity scores).",
+            "text": "O1: surplus positional arguments are rejected only when the flow has no parameter or more than 2n are given; otherwise the callee runs with the first n, its context gains keys `$j`, and the caller waits forever (its FlowStarted match mentions `$n`). O2: a parameter given positionally and by name gets the positional value; the caller waits forever when the two values differ. O3: a named argument that is no parameter is ignored by the callee and leaves the caller waiting forever. O4: `$x = await f` where f ends without executing `return` fails the caller (ColangValueError on `.arguments.return_value`). O6: an activation that omits a parameter WITHOUT default is never identified with an earlier one (C08_obs_activation_omitted_without_default). O7: re-activating with equal values through another call form (e.g. `activate w $a=1` then `activate w 1`) reuses the instance, but the reference's FlowStarted event lacks the `$0` key the caller's match mentions, so the caller waits forever - same root cause as O5 (FlowStarted match carries the call arguments), removed by the same candidate patch; modelled, counted, not claimed. O1-O4 are not claimed or counted as violations: the property text presupposes a corresponding positional or named argument and a value given to `return`. O5 (KNOWN FINDING, well-formed call): the caller's FlowStarted match re-evaluates the call arguments when the event arrives, so a callee that changes a global used in an argument before it is started leaves the caller of `$x = await f(..)` waiting forever; reported through the oracle with signature " + O5_SIG + "; candidate repair fixes/C08-flowstarted-match.patch (not applied: it changes match specificity scores).",
             "flowstarted_match_carries_call_arguments": _flags()},
     })
     out.assumptions += [
